@@ -27,7 +27,7 @@ CASE_TIMEOUT = 900
 
 
 def cases(tier, seed):
-    n = 260 if tier == "quick" else 3000
+    n = 260 if tier == "quick" else 8000
     na = 16 if tier == "quick" else 120
     rng = random.Random(f"C05-{seed}")
     out = []
